@@ -23,7 +23,7 @@ RULE = ("8-32 threads and 8-64 asyncio tasks (with sub-tasks created inside enab
         "frequencies = negative with the context's own shadow stack (new thread: environment default, new task: creator's current value); "
         "sys.setswitchinterval(1e-6) and a sys.monitoring LINE callback on config.py and on the guarded operators sleep(0) so that threads "
         "are pre-empted between set and reset and between reading the switch and acting on it; tasks yield only at their own awaits; "
-        "environment default checked in child processes (PHYST_FREE_ARITHMETICS unset / 0 / 1); a case = one program step with its probe; "
+        "the decorator form (one decorated function shared by all threads, re-entered recursively and concurrently); environment default checked in child processes (PHYST_FREE_ARITHMETICS unset / 0 / 1 / other) from the importing context, a new thread, a fresh Context and a pool worker; a case = one program step with its probe; "
         "non-trivial = probe evaluated while another live context expected the opposite value (conflicting overlap); "
         "distinct by (context id, step number, nesting path)")
 ASSUMPTIONS = ["cooperative code (asyncio) is only interleaved at its own await points",
@@ -118,6 +118,24 @@ def probe(rec: core.Recorder, shared: Shared, cid, expected: bool, rng: random.R
                      diff=["free_arithmetics"], detail={"context": cid, "nesting": path, "step": step, "expected": expected, "observed": observed, "conflicting_overlap": conflict})
 
 
+_DECORATED = {}
+_DECORATED_LOCK = threading.Lock()
+
+
+def decorated(v: bool):
+    """One function per value, decorated once with enable_free_arithmetics(v) and shared by every thread / task."""
+    with _DECORATED_LOCK:
+        if v not in _DECORATED:
+            from physt.config import config
+
+            @config.enable_free_arithmetics(v)
+            def call(fn):
+                return fn()
+
+            _DECORATED[v] = call
+        return _DECORATED[v]
+
+
 # ---------------------------------------------------------------------------------------------
 # thread programs
 
@@ -161,6 +179,35 @@ def thread_program(rec, shared, cid, seed, steps, default):
                 stack[-1] = v
                 shared.set_expected(cid, v)
                 probe(rec, shared, cid, v, rng, path + "=", counter[0])
+            elif r < 0.75 and depth < 4:
+                # the decorator form: one decorated function shared by all threads, re-entered recursively and concurrently
+                v = rng.random() < 0.5
+                boom = rng.random() < 0.25
+                entered = [False]
+
+                def inner():
+                    entered[0] = True
+                    stack.append(v)
+                    shared.set_expected(cid, v)
+                    probe(rec, shared, cid, stack[-1], rng, path + f">@{int(v)}", counter[0])
+                    block(depth + 1, path + f">@{int(v)}")
+                    probe(rec, shared, cid, stack[-1], rng, path + f">@{int(v)}", counter[0])
+                    if boom:
+                        raise Marker()
+
+                try:
+                    decorated(v)(inner)
+                except Marker:
+                    pass
+                except Exception as e:
+                    with shared.rec_lock:
+                        rec.fail(monitor="C19.probe", op="decorated call", symptom=f"a call of a function decorated with enable_free_arithmetics raised {type(e).__name__}",
+                                 diff=["raised"], detail={"context": cid, "nesting": path, "error": str(e)[:160]})
+                finally:
+                    if entered[0]:
+                        stack.pop()
+                        shared.set_expected(cid, stack[-1])
+                probe(rec, shared, cid, stack[-1], rng, path, counter[0])
             else:
                 probe(rec, shared, cid, stack[-1], rng, path, counter[0])
             if rng.random() < 0.3:
@@ -224,6 +271,27 @@ async def task_program(rec, shared, cid, seed, steps, inherited, allow_children=
                 stack[-1] = v
                 shared.set_expected(cid, v)
                 probe(rec, shared, cid, v, rng, path + "=", counter[0])
+            elif r < 0.7:
+                v = rng.random() < 0.5
+
+                def inner():
+                    stack.append(v)
+                    shared.set_expected(cid, v)
+                    try:
+                        probe(rec, shared, cid, v, rng, path + f">@{int(v)}", counter[0])
+                        if rng.random() < 0.3:
+                            decorated(not v)(lambda: (shared.set_expected(cid, not v), probe(rec, shared, cid, not v, rng, path + f">@{int(v)}>@{int(not v)}", counter[0]), shared.set_expected(cid, v)))
+                            probe(rec, shared, cid, v, rng, path + f">@{int(v)}", counter[0])
+                    finally:
+                        stack.pop()
+                        shared.set_expected(cid, stack[-1])
+
+                try:
+                    decorated(v)(inner)
+                except Exception as e:
+                    rec.fail(monitor="C19.probe", op="decorated call", symptom=f"a call of a function decorated with enable_free_arithmetics raised {type(e).__name__}",
+                             diff=["raised"], detail={"context": cid, "nesting": path, "error": str(e)[:160]})
+                probe(rec, shared, cid, stack[-1], rng, path, counter[0])
             else:
                 probe(rec, shared, cid, stack[-1], rng, path, counter[0])
             await asyncio.sleep(0)
@@ -329,10 +397,20 @@ def remove_yield_injection(tool):
 def env_checks(ctx):
     """Environment default in fresh child processes."""
     rec = ctx.rec
-    code = ("import warnings; warnings.simplefilter('ignore'); import numpy as np, physt; from physt.config import config; "
-            "h = physt.h1([0.5, 1.5], np.array([0.0, 1.0, 2.0])); ok = True\n"
-            "try:\n    h + np.ones(2)\nexcept TypeError:\n    ok = False\n"
-            "print(int(bool(config.free_arithmetics)), int(ok))")
+    code = ("import warnings; warnings.simplefilter('ignore'); import threading, contextvars, concurrent.futures\n"
+            "import numpy as np, physt; from physt.config import config\n"
+            "def look():\n"
+            "    h = physt.h1([0.5, 1.5], np.array([0.0, 1.0, 2.0])); ok = True\n"
+            "    try:\n        h + np.ones(2)\n    except TypeError:\n        ok = False\n"
+            "    return [int(bool(config.free_arithmetics)), int(ok)]\n"
+            "out = look()\n"
+            "box = []\n"
+            "t = threading.Thread(target=lambda: box.extend(look())); t.start(); t.join(); out += box\n"
+            "out += contextvars.Context().run(look)\n"
+            "with concurrent.futures.ThreadPoolExecutor(1) as ex:\n    out += ex.submit(look).result()\n"
+            "with config.enable_free_arithmetics(False):\n    pass\n"
+            "out += look()\n"
+            "print(*out)")
     for setting, want in ((None, False), ("0", False), ("1", True), ("true", False), ("", False)):
         rec.mon("C19.env")
         env = dict(os.environ)
@@ -342,12 +420,13 @@ def env_checks(ctx):
         try:
             p = subprocess.run([sys.executable, "-c", code], env=env, capture_output=True, text=True, timeout=120)
             out = p.stdout.strip().split()
-            got = (out[-2] == "1", out[-1] == "1") if len(out) >= 2 else None
+            got = tuple(x == "1" for x in out[-10:]) if len(out) >= 10 else None
         except Exception as e:
             rec.monitor_error("C19.env", e)
             continue
         rec.case(["env", setting], True, cls="env")
-        if got is None or got != (want, want):
+        # importing context, new thread, fresh Context, pool worker, importing context after a block: all see the environment default
+        if got is None or got != (want,) * 10:
             rec.fail(monitor="C19.env", op=f"PHYST_FREE_ARITHMETICS={setting!r}", symptom="environment default of the switch is wrong", diff=["free_arithmetics"],
                      detail={"setting": setting, "expected": want, "observed": got, "stderr": p.stderr[-300:]})
 
